@@ -165,11 +165,17 @@ impl<'ast, 'decls> ResolveIterator<'ast, 'decls>
                                 span,
                                 &util::BigInt::from(cur_bank_data.cur_position))?;
     
-                        cur_bank_data.cur_position += bits_until_alignment(
+                        let padding = bits_until_alignment(
                             report,
                             span,
                             cur_address_in_bits,
                             label_align)?;
+
+                        cur_bank_data.cur_position = advance_position(
+                            report,
+                            span,
+                            cur_bank_data.cur_position,
+                            padding)?;
                     }
                 }
 
@@ -337,13 +343,11 @@ impl<'ast, 'decls> ResolveIterator<'ast, 'decls>
                 let cur_bank_data = &mut self.bank_data[self.bank_ref.0];
 
                 // Advance the current bank's position
-                cur_bank_data.cur_position += {
-                    match instr.encoding.size
-                    {
-                        Some(size) => size,
-                        None => 0,
-                    }
-                };
+                cur_bank_data.cur_position = advance_position(
+                    report,
+                    ast_instr.span,
+                    cur_bank_data.cur_position,
+                    instr.encoding.size.unwrap_or(0))?;
             }
 
             asm::AstAny::DirectiveData(ast_data) =>
@@ -354,13 +358,11 @@ impl<'ast, 'decls> ResolveIterator<'ast, 'decls>
                 let cur_bank_data = &mut self.bank_data[self.bank_ref.0];
 
                 // Advance the current bank's position
-                cur_bank_data.cur_position += {
-                    match data_elem.encoding.size
-                    {
-                        Some(size) => size,
-                        None => 0,
-                    }
-                };
+                cur_bank_data.cur_position = advance_position(
+                    report,
+                    ast_data.elems[self.subindex_prev.unwrap()].span(),
+                    cur_bank_data.cur_position,
+                    data_elem.encoding.size.unwrap_or(0))?;
             }
 
             asm::AstAny::DirectiveRes(ast_res) =>
@@ -371,7 +373,11 @@ impl<'ast, 'decls> ResolveIterator<'ast, 'decls>
                 let cur_bank_data = &mut self.bank_data[self.bank_ref.0];
 
                 // Advance the current bank's position
-                cur_bank_data.cur_position += res.reserve_size;
+                cur_bank_data.cur_position = advance_position(
+                    report,
+                    ast_res.expr.span(),
+                    cur_bank_data.cur_position,
+                    res.reserve_size)?;
             }
 
             asm::AstAny::DirectiveAlign(ast_align) =>
@@ -393,11 +399,17 @@ impl<'ast, 'decls> ResolveIterator<'ast, 'decls>
                         span,
                         &util::BigInt::from(cur_bank_data.cur_position))?;
 
-                cur_bank_data.cur_position += bits_until_alignment(
+                let padding = bits_until_alignment(
                     report,
                     span,
                     cur_address_in_bits,
                     align.align_size)?;
+
+                cur_bank_data.cur_position = advance_position(
+                    report,
+                    span,
+                    cur_bank_data.cur_position,
+                    padding)?;
             }
 
             asm::AstAny::DirectiveAddr(ast_addr) =>
@@ -411,13 +423,13 @@ impl<'ast, 'decls> ResolveIterator<'ast, 'decls>
                 let new_position = {
                     if addr.address >= bank.addr_start
                     {
-                        &addr.address.checked_sub(
+                        addr.address.checked_sub(
                                 report,
                                 ast_addr.header_span,
                                 &bank.addr_start)?
                             .maybe_into::<usize>()
+                            .and_then(|delta| delta.checked_mul(bank.addr_unit))
                             .unwrap_or(0)
-                            * bank.addr_unit
                     }
                     else
                     {
@@ -432,6 +444,28 @@ impl<'ast, 'decls> ResolveIterator<'ast, 'decls>
         }
 
         Ok(())
+    }
+}
+
+
+fn advance_position(
+    report: &mut diagn::Report,
+    span: diagn::Span,
+    position: usize,
+    bits: usize)
+    -> Result<usize, ()>
+{
+    match position.checked_add(bits)
+    {
+        Some(new_position) => Ok(new_position),
+        None =>
+        {
+            report.error_span(
+                "value is out of supported range",
+                span);
+
+            Err(())
+        }
     }
 }
 
